@@ -616,4 +616,80 @@ theorem feature_subrule_keeps_shape (r : SubRule) (it : Item) (hit : SegItem it)
   exact (feature_rule_keeps_shape r it hit mods hin hout hs hty fuel w w { si := 0, gi := 0 } hne (sameShape_refl w) w' h).1
 
 
+
+/-! ## `X > t / env` for any single-segment input keeps the prosody -/
+
+/-- same number of syllables, each with the same stress and tone -/
+def SameProsody (w w' : Word) : Prop :=
+  w'.sylls.length = w.sylls.length ∧
+  ∀ i : Nat, (w'.sylls[i]?).map (fun σ : Syll => (σ.stress, σ.tone)) = (w.sylls[i]?).map (fun σ : Syll => (σ.stress, σ.tone))
+
+theorem sameProsody_refl (w : Word) : SameProsody w w := ⟨rfl, fun _ => rfl⟩
+
+theorem sameProsody_trans {w1 w2 w3 : Word} (h12 : SameProsody w1 w2) (h23 : SameProsody w2 w3) : SameProsody w1 w3 :=
+  ⟨h23.1.trans h12.1, fun i => (h23.2 i).trans (h12.2 i)⟩
+
+theorem sameProsody_rewriteRun (w : Word) (sp : SegPos) (σ : Syll) (t : Seg) (hσ : w.sylls[sp.si]? = some σ) :
+    SameProsody w (setSyll w sp.si (rewriteRun σ sp.gi t)) := by
+  refine ⟨by simp [setSyll], ?_⟩
+  intro j
+  have hlen : sp.si < w.sylls.length := (List.getElem?_eq_some_iff.mp hσ).1
+  by_cases hj : j = sp.si
+  · subst hj; simp [setSyll, hσ, List.getElem?_set_self hlen, rewriteRun]
+  · simp [setSyll, List.getElem?_set_ne (Ne.symm hj)]
+
+/-- **a replacement rule keeps the prosody**: `X > t / any environment`, `X` any single-segment element (literal,
+    literal with modifiers, matrix, group), `t` a plain IPA segment: if the sub-rule returns a word, it has the same
+    syllables with the same stress and tone; every step replaced one matched run by `t` (`rewriteRun_frame`). -/
+theorem replacement_rule_keeps_prosody (r : SubRule) (it : Item) (hit : SegItem it) (t : Seg)
+    (hin : r.input = [it]) (hout : r.output = [.ipa t none]) (hty : r.ruleType = .substitution) :
+    ∀ (fuel : Nat) (w0 w : Word) (cur : SegPos), NoEmptySyll w → SameProsody w0 w →
+      ∀ w', applyLoop r fuel w cur = .ok w' → SameProsody w0 w' ∧ NoEmptySyll w' := by
+  intro fuel
+  induction fuel with
+  | zero => intro w0 w cur _ _ w' h; simp [applyLoop] at h
+  | succ fuel ih =>
+    intro w0 w cur hne hsh w' hres
+    rw [applyLoop] at hres
+    cases hi : inputMatchAt fuel r.input w cur {} with
+    | ok out =>
+      obtain ⟨caps, next, b1⟩ := out
+      rw [hi] at hres
+      simp only [Outcome.bind_ok] at hres
+      rw [hin] at hi
+      rcases inputMatchAt_single w it hit fuel cur _ hi with h1 | ⟨p, nx, h1, h2, hinb⟩
+      · simp only at h1; subst h1
+        simp at hres; subst hres; exact ⟨hsh, hne⟩
+      · simp only at h1 h2; subst h1; subst h2
+        obtain ⟨L, hL⟩ := C06.segLen_of_inB w p hinb
+        have hσ : ∃ σ, w.sylls[p.si]? = some σ ∧ p.gi < σ.segs.length := by
+          unfold Word.inB Word.inBounds at hinb
+          cases hs2 : w.sylls[p.si]? with
+          | none => simp [hs2] at hinb
+          | some σ => simp [hs2] at hinb; exact ⟨σ, rfl, hinb⟩
+        obtain ⟨σ, hσ1, hσ2⟩ := hσ
+        simp only [List.isEmpty_cons, Bool.false_eq_true, if_false, matchSpan, List.head?_cons, List.getLast?_singleton, hL,
+          Outcome.bind_ok, Outcome.pure_eq] at hres
+        cases hm : matchContextsAndExceptions fuel r w p (incN w (L - 1) p) true b1 with
+        | ok res =>
+          obtain ⟨okb, b2⟩ := res
+          rw [hm] at hres
+          simp only [Outcome.bind_ok] at hres
+          cases okb with
+          | false =>
+            simp only [Bool.not_false, if_true] at hres
+            exact ih w0 w nx hne hsh w' hres
+          | true =>
+            have hstep := substitution_basic_step r w p t it σ b2 (some nx) hin hout hσ1 hσ2 hne
+            simp only at hstep
+            simp only [Bool.not_true, Bool.false_eq_true, if_false, transform, hty, hstep, Outcome.bind_ok] at hres
+            exact ih w0 _ _ (noEmptySyll_step w p σ t hne hσ2) (sameProsody_trans hsh (sameProsody_rewriteRun w p σ t hσ1)) w' hres
+        | err e => rw [hm] at hres; simp at hres
+        | panic s => rw [hm] at hres; simp at hres
+        | outOfFuel s => rw [hm] at hres; simp at hres
+    | err e => rw [hi] at hres; simp at hres
+    | panic e => rw [hi] at hres; simp at hres
+    | outOfFuel e => rw [hi] at hres; simp at hres
+
+
 end Asca.C03
